@@ -130,4 +130,114 @@ fn c07c12_builtin_sum_avg__boundary_values_exact_or_error__nat() {
     assert!(cases > 4000);
 }
 
+// C07 (bounded stand-in, native): every floating-point / statistical aggregate AS REGISTERED gives the same result
+// however its input is cut into two partial states that are then combined ("the result must not depend on how rows are
+// split across partitions ... up to rounding for floating-point accumulators": relative tolerance 1e-9), and the
+// variance family equals its textbook definition.  Unary over DOUBLE: sum, avg, min, max, var_pop, var_samp, stddev_pop,
+// stddev_samp; binary (y, x) over DOUBLE: covar_pop, covar_samp, corr, regr_count, regr_avgx, regr_avgy, regr_r2,
+// regr_slope.  Three data sets of 6 rows, every cut 0..=6 (cut 0 / 6 = one state empty).
+fn run_split_n(set: &'static AggregateFunctionSet, cols: &[Vec<f64>], cut: usize) -> Result<Option<f64>> {
+    use crate::arrays::scalar::BorrowedScalarValue;
+    let n = cols[0].len();
+    let inputs: Vec<crate::expr::Expression> = (0..cols.len()).map(|i| expr::column((0, i + 1), DataType::float64())).collect();
+    let agg = bind_aggregate_function(set, inputs)?;
+    let ret = agg.state.return_type.clone();
+    let aggs = [PhysicalAggregateExpression::new(agg, (0..cols.len()).map(|i| (i + 1, DataType::float64())))];
+    let layout = AggregateLayout::try_new([DataType::int32()], aggs)?;
+    let mut collection = AggregateCollection::new(layout, 16);
+    let mut state = collection.init_append_state();
+    collection.append_groups(&mut state, &[Array::try_from_iter([0_i32, 1])?], 0..2)?;
+    let ptrs = state.row_pointers().to_vec();
+    unsafe {
+        for (lo, hi, row) in [(0usize, cut, 0usize), (cut, n, 1)] {
+            if hi > lo {
+                let arrays: Vec<Array> = cols.iter().map(|c| Array::try_from_iter(c[lo..hi].to_vec()).unwrap()).collect();
+                let mut p = vec![ptrs[row]; hi - lo];
+                collection.layout.update_states(&mut p, [AggregateUpdateSelector { aggregate_idx: 0, inputs: &arrays }], hi - lo)?;
+            }
+        }
+        let mut src = vec![ptrs[1]];
+        let mut dest = vec![ptrs[0]];
+        collection.layout.combine_states([0], &mut src, &mut dest)?;
+        let mut fin = vec![ptrs[0]];
+        let mut groups = Array::new(&DefaultBufferManager, DataType::int32(), 1)?;
+        let mut results = Array::new(&DefaultBufferManager, ret, 1)?;
+        collection.finalize_groups(&mut fin, &mut [&mut groups], &mut [&mut results])?;
+        Ok(match results.get_value(0)? {
+            BorrowedScalarValue::Null => None,
+            BorrowedScalarValue::Float64(v) => Some(v),
+            BorrowedScalarValue::Int64(v) => Some(v as f64),
+            other => panic!("unexpected result {other:?}"),
+        })
+    }
+}
+
+fn close(a: Option<f64>, b: Option<f64>) -> bool {
+    match (a, b) {
+        (None, None) => true,
+        (Some(x), Some(y)) => (x.is_nan() && y.is_nan()) || (x - y).abs() <= 1e-9 * x.abs().max(y.abs()).max(1.0),
+        _ => false,
+    }
+}
+
+#[test]
+fn c07_builtin_float_aggregates__independent_of_the_cut__nat() {
+    use crate::functions::aggregate::builtin::corr::FUNCTION_SET_CORR;
+    use crate::functions::aggregate::builtin::covar::{FUNCTION_SET_COVAR_POP, FUNCTION_SET_COVAR_SAMP};
+    use crate::functions::aggregate::builtin::minmax::{FUNCTION_SET_MAX, FUNCTION_SET_MIN};
+    use crate::functions::aggregate::builtin::regr_avg::{FUNCTION_SET_REGR_AVG_X, FUNCTION_SET_REGR_AVG_Y};
+    use crate::functions::aggregate::builtin::regr_count::FUNCTION_SET_REGR_COUNT;
+    use crate::functions::aggregate::builtin::regr_r2::FUNCTION_SET_REGR_R2;
+    use crate::functions::aggregate::builtin::regr_slope::FUNCTION_SET_REGR_SLOPE;
+    use crate::functions::aggregate::builtin::stddev::{FUNCTION_SET_STDDEV_POP, FUNCTION_SET_STDDEV_SAMP, FUNCTION_SET_VAR_POP, FUNCTION_SET_VAR_SAMP};
+    let xs: [Vec<f64>; 3] = [vec![1.0, 2.0, 3.0, 7.0, 8.0, 9.0], vec![-5.5, 0.25, 1e6, 3.0, 3.0, -1e6], vec![2.0, 2.0, 2.0, 2.0, 2.0, 4.0]];
+    let ys: [Vec<f64>; 3] = [vec![2.0, 4.5, 6.0, 13.0, 17.0, 19.5], vec![1.0, -1.0, 0.5, 8.0, -3.0, 2.0], vec![1.0, 2.0, 3.0, 4.0, 5.0, 6.0]];
+    let unary: [(&str, &'static AggregateFunctionSet); 8] = [
+        ("sum", &FUNCTION_SET_SUM), ("avg", &FUNCTION_SET_AVG), ("min", &FUNCTION_SET_MIN), ("max", &FUNCTION_SET_MAX),
+        ("var_pop", &FUNCTION_SET_VAR_POP), ("var_samp", &FUNCTION_SET_VAR_SAMP), ("stddev_pop", &FUNCTION_SET_STDDEV_POP), ("stddev_samp", &FUNCTION_SET_STDDEV_SAMP),
+    ];
+    let binary: [(&str, &'static AggregateFunctionSet); 8] = [
+        ("covar_pop", &FUNCTION_SET_COVAR_POP), ("covar_samp", &FUNCTION_SET_COVAR_SAMP), ("corr", &FUNCTION_SET_CORR), ("regr_count", &FUNCTION_SET_REGR_COUNT),
+        ("regr_avgx", &FUNCTION_SET_REGR_AVG_X), ("regr_avgy", &FUNCTION_SET_REGR_AVG_Y), ("regr_r2", &FUNCTION_SET_REGR_R2), ("regr_slope", &FUNCTION_SET_REGR_SLOPE),
+    ];
+    let mut cases = 0usize;
+    for d in 0..3 {
+        let x = &xs[d];
+        let n = x.len() as f64;
+        let mean = x.iter().sum::<f64>() / n;
+        let m2: f64 = x.iter().map(|v| (v - mean) * (v - mean)).sum();
+        for (name, set) in unary {
+            let whole = run_split_n(set, &[x.clone()], 0).unwrap();
+            let def = match name {
+                "var_pop" => Some(m2 / n),
+                "var_samp" => Some(m2 / (n - 1.0)),
+                "stddev_pop" => Some((m2 / n).sqrt()),
+                "stddev_samp" => Some((m2 / (n - 1.0)).sqrt()),
+                "sum" => Some(x.iter().sum::<f64>()),
+                "avg" => Some(mean),
+                "min" => x.iter().copied().reduce(f64::min),
+                _ => x.iter().copied().reduce(f64::max),
+            };
+            assert!(close(whole, def), "{name}({x:?}) = {whole:?}, definition gives {def:?}");
+            for cut in 0..=x.len() {
+                let got = run_split_n(set, &[x.clone()], cut).unwrap();
+                assert!(close(got, whole), "{name}({x:?}) depends on how the rows are split: {got:?} when cut after {cut} rows, {whole:?} in one state");
+                cases += 1;
+            }
+        }
+        for (name, set) in binary {
+            let cols = [ys[d].clone(), x.clone()];
+            let whole = run_split_n(set, &cols, 0).unwrap();
+            for cut in 0..=x.len() {
+                let got = run_split_n(set, &cols, cut).unwrap();
+                assert!(close(got, whole), "{name}(y = {:?}, x = {x:?}) depends on how the rows are split: {got:?} when cut after {cut} rows, {whole:?} in one state", ys[d]);
+                cases += 1;
+            }
+        }
+    }
+    assert!(cases == 3 * 16 * 7);
+}
+
+//@fn functions/aggregate/builtin/{stddev,covar,corr,regr_*}.rs states as registered (update / merge / finalize through AggregateLayout)
+
 include!("/verif/build/kani-gen/agg_collection.playback.rs");
